@@ -46,12 +46,12 @@ class Flow:
                     elif params[0] == 'package':
                         ds = datapackage_processor(link)(ds, position=position)
                     else:
-                        assert False, 'Failed to parse function signature {!r}'.format(params)
+                        raise AssertionError('Failed to parse function signature {!r}'.format(params))
                 else:
-                    assert False, 'Failed to parse function signature {!r}'.format(params)
+                    raise AssertionError('Failed to parse function signature {!r}'.format(params))
             elif isinstance(link, Iterable):
                 ds = iterable_loader(link)(ds, position=position)
             else:
-                assert False, 'Unsupported step #{} in flow: {!r}'.format(position, link)
+                raise AssertionError('Unsupported step #{} in flow: {!r}'.format(position, link))
 
         return ds
